@@ -221,6 +221,8 @@ class Inference:
             return None
         if isinstance(e, ast.IfExp):
             return self.classify(e.body, fi, depth + 1) or self.classify(e.orelse, fi, depth + 1)
+        if isinstance(e, ast.BinOp) and isinstance(e.op, ast.Mod) and isinstance(e.left, ast.Constant) and isinstance(e.left.value, str):
+            return self._printf(e.left.value, e.right, fi, depth, text)
         if isinstance(e, ast.BinOp) and isinstance(e.op, (ast.Add, ast.Sub, ast.Mult, ast.FloorDiv, ast.Mod)):
             if isinstance(e.op, ast.Mod) and not self.is_int(e.left, fi):
                 return f"unknown: {text}"
@@ -231,6 +233,15 @@ class Inference:
                 return None
             if f == "str" and e.args:
                 return self.classify(e.args[0], fi, depth + 1)
+            if f == "format" and len(e.args) == 1:
+                return self.classify(e.args[0], fi, depth + 1)
+            if isinstance(e.func, ast.Attribute) and e.func.attr == "format":
+                tmpl = e.func.value
+                if isinstance(tmpl, ast.Name):
+                    tv = self._const_of(tmpl.id, fi)
+                    tmpl = ast.Constant(tv) if tv is not None else tmpl
+                if isinstance(tmpl, ast.Constant) and isinstance(tmpl.value, str):
+                    return self._strformat(tmpl.value, e, fi, depth, text)
             return f"unknown: {text}"
         if isinstance(e, ast.ListComp) or isinstance(e, ast.List):
             return f"unknown: {text}"
@@ -239,6 +250,17 @@ class Inference:
                 return None
             if e.attr == "name" and (ast.unparse(e.value).endswith("type_") or self._enum_typed(e.value, fi)):
                 return None  # enum member names are identifiers
+            if e.attr in ("value", "query", "message") and isinstance(e.value, ast.Name) and not any(
+                isinstance(n, (ast.Assign, ast.AnnAssign)) and any(isinstance(t, ast.Name) and t.id == e.value.id for t in (n.targets if isinstance(n, ast.Assign) else [n.target])) for n in walk_own(fi.node)
+            ):
+                # attribute of a parameter: decided where the argument comes from
+                sites = self.call_site_args(fi, e.value.id)
+                if sites:
+                    for g, arg in sites:
+                        p = self.classify(ast.Attribute(value=arg, attr=e.attr, ctx=ast.Load()), g, depth + 1)
+                        if p:
+                            return p
+                    return None
             if e.attr in ("value", "query", "message"):
                 return f"tainted: {text} is text of the query and is interpolated without repr(): it may contain a line break"
             return f"unknown: {text}"
@@ -250,6 +272,70 @@ class Inference:
         if isinstance(e, ast.Name):
             return self.classify_name(e.id, fi, depth)
         return f"unknown: {text}"
+
+    def _const_of(self, name: str, fi: FuncInfo) -> Optional[str]:
+        """The string constant a module-level name (never rebound) or a single-assignment local stands for."""
+        vals = [n.value for n in walk_own(fi.node) if isinstance(n, ast.Assign) and any(isinstance(t, ast.Name) and t.id == name for t in n.targets)]
+        if not vals and name in fi.module.assigns and name not in {a.arg for a in fi.node.args.args}:
+            vals = [fi.module.assigns[name]]
+        if len(vals) == 1 and isinstance(vals[0], ast.Constant) and isinstance(vals[0].value, str):
+            return vals[0].value
+        return None
+
+    def _strformat(self, template: str, call: ast.Call, fi: FuncInfo, depth: int, text: str) -> Optional[str]:
+        import string as _string
+
+        if has_break(template):
+            return f"tainted: the template {template!r} contains a line break"
+        auto = 0
+        kws = {k.arg: k.value for k in call.keywords if k.arg}
+        try:
+            fields = list(_string.Formatter().parse(template))
+        except ValueError:
+            return f"unknown: {text}"
+        for _lit, field, spec, conv in fields:
+            if field is None:
+                continue
+            if conv in ("r", "a"):
+                if field == "":
+                    auto += 1
+                continue
+            head = field.split(".")[0].split("[")[0]
+            if field == "":
+                arg = call.args[auto] if auto < len(call.args) else None
+                auto += 1
+            elif head.isdigit():
+                arg = call.args[int(head)] if int(head) < len(call.args) and head == field else None
+            else:
+                arg = kws.get(head) if head == field else None
+            if arg is None or isinstance(arg, ast.Starred):
+                return f"unknown: {text}"
+            p = self.classify(arg, fi, depth + 1)
+            if p:
+                return p
+        return None
+
+    def _printf(self, template: str, right: ast.expr, fi: FuncInfo, depth: int, text: str) -> Optional[str]:
+        import re as _re
+
+        if has_break(template):
+            return f"tainted: the template {template!r} contains a line break"
+        args = list(right.elts) if isinstance(right, ast.Tuple) else [right]
+        k = 0
+        for m in _re.finditer(r"%(\([^)]*\))?[#0\- +]*(\*|\d+)?(\.(\*|\d+))?([a-zA-Z%])", template):
+            c = m.group(5)
+            if c == "%":
+                continue
+            if m.group(1) or k >= len(args):
+                return f"unknown: {text}"
+            a = args[k]
+            k += 1
+            if c in "ra" or c in "dioxXeEfFgGc":
+                continue  # repr/ascii escape line breaks; numeric conversions print digits
+            p = self.classify(a, fi, depth + 1)
+            if p:
+                return p
+        return None
 
     def _enum_typed(self, e: ast.expr, fi: FuncInfo) -> bool:
         if isinstance(e, ast.Name):
@@ -280,6 +366,31 @@ class Inference:
                 return True
         return False
 
+    def call_site_args(self, fi: FuncInfo, name: str) -> List[Tuple[FuncInfo, ast.expr]]:
+        """(caller, argument expression) for parameter `name` of fi at every call of a function of that name."""
+        params = [a.arg for a in fi.node.args.args + fi.node.args.kwonlyargs]
+        if name not in params:
+            return []
+        pos = [a.arg for a in fi.node.args.args]
+        idx = pos.index(name) - (1 if fi.cls is not None else 0) if name in pos else -1
+        out: List[Tuple[FuncInfo, ast.expr]] = []
+        for g in self.model.functions.values():
+            for n in walk_own(g.node):
+                if not isinstance(n, ast.Call):
+                    continue
+                callee = n.func.attr if isinstance(n.func, ast.Attribute) else n.func.id if isinstance(n.func, ast.Name) else None
+                if callee != fi.name:
+                    continue
+                arg = None
+                if 0 <= idx < len(n.args) and not any(isinstance(a, ast.Starred) for a in n.args[: idx + 1]):
+                    arg = n.args[idx]
+                for kw in n.keywords:
+                    if kw.arg == name:
+                        arg = kw.value
+                if arg is not None:
+                    out.append((g, arg))
+        return out
+
     def classify_name(self, name: str, fi: FuncInfo, depth: int) -> Optional[str]:
         if self._name_is_int(name, fi):
             return None
@@ -308,30 +419,19 @@ class Inference:
         # parameters: every call site in the package must pass a line-break-free argument
         params = [a.arg for a in fi.node.args.args]
         if name in params and not opaque:
-            idx = params.index(name) - (1 if fi.cls is not None else 0)
-            sites = 0
-            for g in self.model.functions.values():
-                for n in walk_own(g.node):
-                    if not isinstance(n, ast.Call):
-                        continue
-                    callee = n.func.attr if isinstance(n.func, ast.Attribute) else n.func.id if isinstance(n.func, ast.Name) else None
-                    if callee != fi.name:
-                        continue
-                    arg = None
-                    if 0 <= idx < len(n.args):
-                        arg = n.args[idx]
-                    for kw in n.keywords:
-                        if kw.arg == name:
-                            arg = kw.value
-                    if arg is None:
-                        continue
-                    sites += 1
-                    p = self.classify(arg, g, depth + 1)
-                    if p:
-                        return p
+            sites = self.call_site_args(fi, name)
+            for g, arg in sites:
+                p = self.classify(arg, g, depth + 1)
+                if p:
+                    return p
             if sites:
                 return None
             return f"unknown: parameter {name} of {fi.qualname} has no call site in the package"
+        # module-level constant
+        if not vals and name not in params and name in fi.module.assigns:
+            rebinds = [g for g in self.model.functions.values() if g.module is fi.module and any(isinstance(n, ast.Global) and name in n.names for n in walk_own(g.node))]
+            if not rebinds:
+                return self.classify(fi.module.assigns[name], fi, depth + 1)
         return f"unknown: {name} in {fi.qualname}"
 
 
